@@ -7,4 +7,4 @@ import SparseSpace.Properties.C14
 #print axioms SparseSpace.C14.incremental_reentrant
 #print axioms SparseSpace.C14.resume_incremental
 #print axioms SparseSpace.C14.resume_eq_single_fails_without_reentrance
-#print axioms SparseSpace.C14.resume_counterexample_scratch_noref
+#print axioms SparseSpace.C14.resume_scratch
